@@ -118,8 +118,12 @@ class Hist:
         elif r < 0.80:
             self.add("pause")
             x = rng.random()
-            if x < 0.08:     # out of contract: something between pause and resume
-                self.ctl(); stat["contract:op-while-paused"] += 1
+            if x < 0.10:     # out of contract: something between pause and resume
+                if self.pending and x < 0.05:
+                    self.deliver(1)      # a reply while libtermkey is stopped waits in its buffer
+                else:
+                    self.ctl()
+                stat["contract:op-while-paused"] += 1
             if x < 0.93:
                 self.add("resume")
                 if self.pen_nondefault:
@@ -165,8 +169,8 @@ class Hist:
             end = ["pause", "unref"]
         elif r < 0.95:
             end = ["teardown"]
-            if rng.random() < 0.5:   # out of contract: a setting after teardown
-                end += [f"ctl mouse {rng.choice([1, 2])}", "unref"]; stat["contract:op-after-teardown"] += 1
+            if rng.random() < 0.5:   # out of contract: a setting or a reply after teardown
+                end += [rng.choice([f"ctl mouse {rng.choice([1, 2])}", "reply mode 12 1", "reply mode 25 1"]), "unref"]; stat["contract:op-after-teardown"] += 1
         else:
             end = ["pause", "teardown", "unref"]
         for e in end:
